@@ -11,9 +11,9 @@ tmp=$(mktemp -d)
 trap 'rm -rf "$tmp"' EXIT
 python3 tools/variants.py --props "$id" --for "$id" --json "$tmp/variants.json" > "$tmp/variants.log" 2>&1
 vrc=$?
-python3 tools/seeds.py -j 4 --for "$id" --json "$tmp/seeds.json" > "$tmp/seeds.log" 2>&1
+python3 tools/seeds.py -j 8 --for "$id" --json "$tmp/seeds.json" > "$tmp/seeds.log" 2>&1
 src=$?
-python3 tools/refactors.py --for "$id" -j 4 --json "$tmp/refactors.json" > "$tmp/refactors.log" 2>&1
+python3 tools/refactors.py --for "$id" -j 8 --json "$tmp/refactors.json" > "$tmp/refactors.log" 2>&1
 rrc=$?
 python3 - "$tmp" <<'PY'
 import json, sys, os
